@@ -245,3 +245,46 @@ pub fn objdump_boundaries(code: &[u8]) -> Option<Vec<usize>> {
 pub fn model_boundaries(code: &[u8]) -> Result<Vec<usize>, String> {
     Ok(x86::disassemble(code)?.into_iter().map(|(a, _)| a).collect())
 }
+
+/// Selector-lemma support: run straight-line machine code built from a hand-made bytecode
+/// program with an arbitrary (symbolic) initial tape window `cells[0..n]` at the pointer;
+/// returns the final window.
+pub fn run_window<C: CellType>(code: &[u8], entry_points: [usize; 3], cells: &[T], max_steps: u64) -> Result<Vec<T>, String> {
+    with(|c| {
+        c.reset_io();
+        c.seam_errors.clear();
+        c.width = C::BITS as u8;
+        c.no_output = true;
+    });
+    let mut cxt = Box::new(Context::<C>::new(None, None));
+    cxt.memory.make_accessible(0, cells.len() as isize);
+    let mem_ptr = cxt.memory.current_ptr() as u64;
+    let mut env = JitEnv::<C> { cxt, entry: entry_points, w: C::BITS as u8, extend_calls: 0 };
+    let mut st = State::new(ENTRY_RSP);
+    let ctx_addr = env.ctx_addr();
+    st.regs[RDI] = with(|c| c.ar.konst(64, ctx_addr));
+    st.regs[RSI] = with(|c| c.ar.konst(64, mem_ptr));
+    let (buf, _) = env.tape();
+    let base = ((mem_ptr - buf) / env.cell_bytes()) as i64;
+    for (i, t) in cells.iter().enumerate() {
+        if *t != 0 {
+            st.tape.insert(base + i as i64, *t);
+        }
+    }
+    let saved: Vec<(usize, T)> = [RBX, RBP, 12, 13, 14, 15].iter().map(|&r| (r, st.regs[r])).collect();
+    match st.run(code, &mut env, max_steps, true) {
+        Exit::Ret(_) => {
+            for (r, t) in &saved {
+                if st.regs[*r] != *t {
+                    return Err(format!("callee-saved register r{} is not restored at return", r));
+                }
+            }
+            // the pointer may not have moved (no Mov in lemma programs)
+            let (buf2, _) = env.tape();
+            let base2 = base + ((buf2 as i64 - buf as i64) / env.cell_bytes() as i64) * 0;
+            Ok((0..cells.len()).map(|i| *st.tape.get(&(base2 + i as i64)).unwrap_or(&0)).collect())
+        }
+        Exit::Fault(s) => Err(s),
+        Exit::StepCap => Err("step cap".into()),
+    }
+}
